@@ -610,3 +610,27 @@ def _c_choice_additions(ctx):
             if n.value[0] in names:
                 return True
     return False
+
+
+@finding(('C05',), 'per-aligned-small-number-ge-64')
+def _per_aligned_small_number(ctx):
+    # per.py Encoder.append_normally_small_non_negative_whole_number: for n >= 64 the length determinant and
+    # the value are appended without octet alignment (X.691 11.6.2 -> 11.7/11.9: octet-aligned in the ALIGNED
+    # variant); pinned by tests/test_per.py::test_enumerated ('cm' -> c0 50 00), so not repairable here
+    if ctx.codec != 'per':
+        return False
+    for n in ctx.vnodes():
+        b = n.r.base
+        if b.kind == 'ENUMERATED' and b.enum_ext:
+            items = sorted(b.enum_ext, key=lambda e: e[1])
+            for i, e in enumerate(items):
+                if i >= 64 and n.value in (e[0], e[1]):
+                    return True
+        if b.kind == 'CHOICE' and b.ext and isinstance(n.value, tuple):
+            i = 0
+            for a in b.ext:
+                for m in (a.members if isinstance(a, asn.Group) else [a]):
+                    if m.name == n.value[0] and i >= 64:
+                        return True
+                    i += 1
+    return False
